@@ -138,8 +138,13 @@ def run_impl(case):
     finally:
         np.random.permutation = orig
     f = lambda a: [[float(x) for x in row] for row in a]  # noqa: E731
-    return {"adv": f(adv), "ret": f(ret), "vals": f(vals), "logp": f(logp), "flat": flat, "perms": perms, "passes": passes,
-            "rewards32": f(buf.rewards), "starts32": f(buf.episode_starts)}
+    # what add() was GIVEN (float32-rounded), cell by cell: the oracle and the model are fed from these, and the
+    # arrays add() stored must equal them (a misplacement inside add() is then visible)
+    given = {k: [[float(np.float32(x)) for x in row] for row in case[k]] for k in ("rewards", "values", "starts")}
+    stored_ok = (f(buf.rewards) == given["rewards"] and f(vals) == given["values"] and f(buf.episode_starts) == given["starts"])
+    return {"adv": f(adv), "ret": f(ret), "vals": given["values"], "logp": f(logp), "flat": flat, "perms": perms, "passes": passes,
+            "rewards32": given["rewards"], "starts32": given["starts"], "stored_ok": stored_ok,
+            "stored": {"rewards": f(buf.rewards), "values": f(vals), "starts": f(buf.episode_starts)}}
 
 
 # ---------------------------------------------------------------- oracle (from the property text)
@@ -215,6 +220,8 @@ def compare(case, impl, model_vals):
     T, n = case["T"], case["n"]
     exact = case["kind"] == "exact"
     probs = []
+    if not impl.get("stored_ok", True):
+        probs.append(("oracle-add-stored-wrong-cell", f"RolloutBuffer.add did not store rewards/values/episode_starts in the (step, env) cells it was given: stored {impl['stored']}"))
     # --- GAE: model vs impl
     for e in range(n):
         ok_adv, ok_ret, approx = model_vals[e]
